@@ -44,21 +44,22 @@ def scratch_dir(tag):
 
 
 class Crash:
-    def __init__(self, cid, rc, stderr, kind):
+    def __init__(self, cid, rc, stderr, kind, partial=None):
         self.cid, self.rc, self.stderr, self.kind = cid, rc, stderr, kind
+        self.partial = partial or []  # result lines the case produced before the process died (re-run with per-command flush)
 
     def summary(self):
         """(sanitizer kind, top json-c frame) -> stable key component"""
         import re
         s = self.stderr
         kind = self.kind
-        m = re.search(r"ERROR: AddressSanitizer: ([\w-]+)", s)
+        m = re.search(r"runtime error: ([^\n]{0,60})", s)
         if m:
-            kind = "asan-" + m.group(1)
+            kind = "ubsan-" + re.sub(r"[^a-z]+", "-", re.sub(r"[-+]?[0-9][0-9.e+]*", "N", m.group(1).lower()))[:48].strip("-")
         else:
-            m = re.search(r"runtime error: ([^\n]{0,60})", s)
+            m = re.search(r"ERROR: AddressSanitizer: ([\w-]+)", s)
             if m:
-                kind = "ubsan-" + re.sub(r"[^a-z]+", "-", m.group(1).lower())[:40].strip("-")
+                kind = "asan-" + m.group(1)
         frame = "?"
         for fm in re.finditer(r"#\d+ 0x[0-9a-f]+ in (\S+) (/repo/[\w./-]+?):(\d+)", s):
             frame = "%s" % (fm.group(1))
@@ -137,7 +138,26 @@ def run_script(exe, cases, env=None, timeout=600, tag="drv", args=()):
                     continue
             crashes.append(Crash(cid, rc, err, "hang"))
         else:
-            crashes.append(Crash(cid, rc, err, "exit-%s" % rc if rc > 0 else "signal-%s" % (-rc)))
+            # re-run the dying case alone with per-command flushing to learn which command it died in
+            partial = []
+            try:
+                with open(sp, "w") as f:
+                    f.write("CASE %s\n" % cid)
+                    for c in remaining[idx][1]:
+                        f.write(c + "\n")
+                    f.write("END\n")
+                e2 = dict(e)
+                e2["VF_FLUSH"] = "1"
+                with open(ep, "w") as ef:
+                    subprocess.run([exe, sp, op] + list(args), stdin=subprocess.DEVNULL, stdout=subprocess.DEVNULL, stderr=ef, env=e2, timeout=timeout)
+                with open(op, errors="replace") as f:
+                    partial = [ln.rstrip("\n") for ln in f if not ln.startswith("C ")]
+                err2 = open(ep, errors="replace").read()[-6000:]
+                if err2.strip():
+                    err = err2
+            except Exception:
+                pass
+            crashes.append(Crash(cid, rc, err, "exit-%s" % rc if rc > 0 else "signal-%s" % (-rc), partial))
         remaining = remaining[idx + 1:]
         if len(crashes) >= MAX_CRASHES:
             # enough witnesses; do not spend the budget restarting the driver thousands of times
